@@ -41,7 +41,9 @@ def run_chain(w, blocks, coin, verify, ck_label, r0=None):
     first = r0.choice([1, 1, 2]) if verify else r0.choice([0, 0, 1])
     first = min(first, len(blocks) - 1)
     end = r0.choice([None, None, None, len(blocks) - 2]) if len(blocks) - 2 > first else None
-    r = run.run_parser(d.path, 'csvdump', dump=w.mk('out'), coin=coin, verify=verify, start=first or None, end=end, timeout=180)
+    # the verbosity option must not influence the result either
+    r = run.run_parser(d.path, 'csvdump', dump=w.mk('out'), coin=coin, verify=verify, start=first or None, end=end, timeout=180,
+                       verbose=r0.choice([0, 0, 1, 2]))
     lastb = len(blocks) - 1 if end is None else end
     chain = [(h, b) for h, b in enumerate(blocks) if first <= h <= lastb]
     exp, tot = ref.csv_expected(chain, coin)
@@ -76,9 +78,15 @@ def main(ck, tier, w, pid='C01'):
     # ---- T: the real decoder's primitive reads against the specification's
     conc = []
     ck.cov['misframed_shapes_checked_in_model_only'] = sum(1 for u in universe if not u['wf'])
+    classes = {'bitcoin': ['bitcoin', 'testnet3'], 'litecoin': ['litecoin', 'myriadcoin', 'unobtanium', 'noteblockchain'],
+               'namecoin': ['namecoin'], 'dogecoin': ['dogecoin']}
     for u in universe:
         if u['wf']:          # misframed streams are not valid chain data: only the specification is consulted (Misframed)
-            conc.append((u, wirerep.mk_block(u, rng)))
+            # the model's coin stands for its class: every real coin of the class is exercised (negative control of C12 on all six)
+            for coin in classes[u['coin']]:
+                if coin == u['coin'] or u['block']['ver'] > 0 or rng.random() < 0.15:
+                    uu = dict(u, coin=coin)
+                    conc.append((uu, wirerep.mk_block(uu, rng)))
     lines = ['%s %d %s' % (u['coin'], len(b['raw']), b['raw'].hex()) for u, b in conc]
     outs = []
     for k in range(0, len(lines), 2000):
